@@ -569,7 +569,8 @@ PROPS["C11"] = {
             "(rand, 64-bit hash, unioned over shards). "
             "leg big (rapid): lhs = 0..n-1 (optionally mod 2/7/100/1000) for n in {1100, 2050, 4097, 4100, 4200, 5000}, rhs = lhs with up to 6 deletions and 6 insertions (one of them near the start), either role; the same validity / span / canonical-form checks, minimality against a two-row LCS-length DP; non-trivial iff the input has repeats. "
             "ELEMENT KINDS: half of the cases (random legs) and half of the indices (exhaustive legs, dealt by a hash of the case index) keep int elements; the others instantiate the functions with string, int16, an 88-byte struct, *Cell pointers, interface elements holding pointers, float64 (zeros of either sign, which are == and must be treated as equal), a word-table string kind containing 32-bit checksum-collision pairs (FNV-1, FNV-1a, Adler-32) and, optionally, strings that share storage as prefixes of one another, and []byte for the ...Func variants. Elements carry an identity besides their value, so inputs with the same values but different elements (distinct pointers to deeply equal pointees) are different inputs for ==, and every identity/aliasing check runs on the instantiated slices. "
-            "One rand case in four is followed by one or two rounds that rewrite lhs or rhs IN PLACE (same arrays, same lengths) and diff again under the full oracle; one in eight is followed by a second input pair, after which every earlier script is compared with a header copy taken when it was returned (also after the next case, vk Retain). One rand case in ten has lengths whose sum or product, or both lengths, sit at or next to 64, 100, 128, 200, 256, 512, 1000, 1024.",
+            "One rand case in four is followed by one or two rounds that rewrite lhs or rhs IN PLACE (same arrays, same lengths) and diff again under the full oracle; one in eight is followed by a second input pair, after which every earlier script is compared with a header copy taken when it was returned (also after the next case, vk Retain). One rand case in ten has lengths whose sum or product, or both lengths, sit at or next to 64, 100, 128, 200, 256, 512, 1000, 1024. "
+            "Cases of the interface kind are followed by one more call on []any inputs of plain ints in which ONE lhs element is a slice value (unhashable, and == never meets its own dynamic type): no panic, the script turns lhs into rhs and keeps as many elements as an LCS with that element matching nothing.",
     "assumptions": COMMON_ASSUME + ["element kinds as listed in the rule; EditScript is generic in T but its control flow "
                                     "does not depend on T"],
 }
